@@ -652,9 +652,12 @@ var _ = sort.Ints
 
 // ---------- errors raised by the executor ----------
 
-type unsupportedErr struct{ msg string }
+type unsupportedErr struct {
+	msg string
+	loc string
+}
 
-func unsupported(msg string) unsupportedErr { return unsupportedErr{msg} }
+func unsupported(msg string) unsupportedErr { return unsupportedErr{msg: msg} }
 
 // goPanic is a Go-level panic in the interpreted program.
 type goPanic struct {
